@@ -4,7 +4,7 @@
    label, criticality and value, algorithm of the signer's key, signature, chain in order, agent).
    lib_verify = true: the signer's signature verifies under the leaf key (cryptographic assumption
    on an honest signer; checked on every generated case by the independent oracle). *)
-From NCG Require Import Model.Sign Proofs.Header Proofs.Sign.
+From NCG Require Import Model.Sign Proofs.Header Proofs.Sign Proofs.SignComplete.
 
 Theorem C08_roundtrip : forall sigfrom selfsig q h, sign sigfrom selfsig q = SOk h ->
   exists s k a chain, q_signer q = Some s /\ s_ks s = Some k /\ sig_alg k = Some a /\ s_chain s = Some chain /\
@@ -25,3 +25,24 @@ Theorem C08_criticality_preserved : forall (ps : list (label * rattr)),
   forall l a, In (l, a) ps -> mem_label l (map fst (filter (fun p => ra_crit (snd p)) ps)) = ra_crit a.
 Proof. exact crit_flag_preserved. Qed.
 Print Assumptions C08_criticality_preserved.
+
+(* "For every valid sign request ... the produced envelope parses and verifies": every valid request
+   whose signer returns a non-empty signature IS signed (the envelope built for it meets the envelope
+   specification, so the wrapper's read-back accepts it), and C08_roundtrip then gives its content *)
+Theorem C08_valid_request_is_signed : forall sigfrom selfsig q, (q_fmt q = 0 \/ q_fmt q = 1)%Z ->
+  ValidReq sigfrom selfsig q -> q_sig q <> 0%Z -> exists h, sign sigfrom selfsig q = SOk h.
+Proof. exact sign_complete. Qed.
+Print Assumptions C08_valid_request_is_signed.
+
+Theorem C08_signs_exactly_the_valid_requests : forall sigfrom selfsig q, (q_fmt q = 0 \/ q_fmt q = 1)%Z -> q_sig q <> 0%Z ->
+  ((exists h, sign sigfrom selfsig q = SOk h) <-> ValidReq sigfrom selfsig q).
+Proof. exact sign_exact. Qed.
+Print Assumptions C08_signs_exactly_the_valid_requests.
+
+(* the envelope built for a valid request meets the envelope specification of C07 *)
+Theorem C08_built_envelope_conformant : forall sigfrom selfsig q s k a leaf rest,
+  (q_fmt q = 0 \/ q_fmt q = 1)%Z -> ValidReq sigfrom selfsig q -> q_sig q <> 0%Z ->
+  q_signer q = Some s -> s_ks s = Some k -> sig_alg k = Some a -> s_chain s = Some (leaf :: rest) ->
+  Conformant sigfrom selfsig (built_view q a (leaf :: rest)).
+Proof. exact built_conformant. Qed.
+Print Assumptions C08_built_envelope_conformant.
